@@ -52,6 +52,15 @@ CLAIMS = {
              "invariance. The literal recursion (incl. clamping) is compared with the implementation on random fields; "
              "convergence to exp(H) and the second-order smooth-field bound are exploration only (partial).",
         ref="5 C11"),
+    "C13": dict(
+        technique="Lean 4 theorems on the model of core/flow.py compose_flows/lie_bracket/compose_svfs + correspondence "
+                  "of compose_flows over Q",
+        text="10 theorems: composing sampled affine displacement fields is exact when the first keeps the lattice in the "
+             "hull (any dimension/size/convention); the zero field is a two-sided identity; the sampling position honours "
+             "the given align_corners; expv's step is self-composition; the Lie bracket is antisymmetric and bilinear for "
+             "any additive homogeneous stencil; BCH reduces to v+u for commuting fields at every truncation order. "
+             "BCH-error-vs-order and the logv(expv v) bound are approximation statements explored numerically (partial).",
+        ref="5 C13"),
 }
 
 NOT_APPLICABLE = {}
